@@ -157,7 +157,7 @@ def run(ctx):
         found = True
         c = cs[i]
         report(ctx, sig, "sort_classes(%s) on %d classes -> %s" % (c["roots"], len(c["spec"]), json.dumps(c["res"])[:200]),
-               dict(kind="concrete", tie="K-TOPO", spec=c["spec"], roots=c["roots"], observed=c["res"], how_to_replay="./check C14 --replay <this file>"))
+               dict(kind="concrete", tie="K-TOPO", spec=c["spec"], roots=c["roots"], warm=c.get("warm", False), observed=c["res"], how_to_replay="./check C14 --replay <this file>"))
     # supporting: real builds
     nbuild = 0
     for c in cs:
@@ -198,7 +198,7 @@ def replay(ctx, path):
     r = json.load(open(path))
     if r.get("kind") != "concrete":
         print("nothing to execute:", r.get("what")); return 1
-    c = run_impl(ctx, "topo", {"replay": [{"spec": r["spec"], "roots": r["roots"]}]})["cases"][0]
+    c = run_impl(ctx, "topo", {"replay": [{"spec": r["spec"], "roots": r["roots"], "warm": r.get("warm", False)}]})["cases"][0]
     rc, out = coq_run(ctx, "replay_C14", cases_file([c]))
     pairs = parse_pairs(out) if rc == 0 else None
     print(json.dumps(c["res"]))
